@@ -1055,7 +1055,7 @@ func (s *State) evalForIntegerReg(fe *ast.ForExpression, start *int64, end int64
 				return done(s.Errorf("for loop unexpected control type %s", r.ControlType.String()))
 			}
 		default:
-			lastEval = nextEval
+			lastEval = object.CopyRegister(nextEval) // the value now, not the register (it changes on the next iteration).
 		}
 	}
 	return done(lastEval)
@@ -1134,7 +1134,7 @@ func (s *State) evalForList(fe *ast.ForExpression, list object.Object, name stri
 				return s.Errorf("for loop unexpected control type %s", r.ControlType.String())
 			}
 		default:
-			lastEval = nextEval
+			lastEval = object.CopyRegister(nextEval) // the value now, not the register (it changes on the next iteration).
 		}
 	}
 	return lastEval
@@ -1172,7 +1172,7 @@ func (s *State) evalForExpression(fe *ast.ForExpression) object.Object {
 					return nextEval
 				}
 			default:
-				lastEval = nextEval
+				lastEval = object.CopyRegister(nextEval) // the value now, not the register (it changes on the next iteration).
 			}
 		case object.FALSE, object.NULL:
 			if log.LogVerbose() {
